@@ -637,9 +637,12 @@ def render_int(ex, v, base):
     """digits of an integer (unsigned, or signed and non-negative on this path): the number of digits is decided by forking, each digit is a term"""
     e = v.e
     w = e.size()
-    if v.signed:
+    if v.signed and base == "d":
         if ex.decide(e < 0):
-            raise Unsupported("formatting a negative integer")
+            # "-" followed by the digits of the magnitude (as an unsigned number of the same width: i32::MIN is covered)
+            return [z3.BitVecVal(ord("-"), 8)] + render_int(ex, type(v)(0 - e, "u%d" % w), "d")
+    elif v.signed and ex.decide(e < 0):
+        raise Unsupported("formatting a negative integer in hexadecimal")
     if base == "x":
         n = 1
         while n * 4 < w and ex.decide(z3.UGE(e, z3.BitVecVal(1 << (4 * n), w))):
